@@ -29,8 +29,9 @@ theorem facts_C03_C19_count_then_hook_then_insert :
 /-- v2 buffer: `shutdown()` broadcasts and a woken `enqueue` re-checks `isShutdown` (fix of finding F4) -/
 theorem facts_C15_C16_shutdown_wakes_waiters : Facts.v2_shutdownWakesWaiters = some true := by decide
 
-/-- C16: the v2 setters the property names refuse (panic) once the Batcher has been started -/
-theorem facts_C16_setter_guards :
+/-- C16: the v2 setters the property names refuse (panic) once the Batcher has been started - in EVERY later phase; the
+theorems about intervals and times (C02 C11 C12 C13 C19) rely on those values being fixed from Start on -/
+theorem facts_C02_C11_C12_C13_C16_C19_setter_guards :
     ∀ x ∈ ["WithRateLimiter", "WithFlushInterval", "WithCapacityInterval", "WithAuditInterval", "WithMaxOperationTime",
            "WithPauseTime", "WithErrorOnFullBuffer"], x ∈ Facts.v2_guardedSetters := by decide
 
